@@ -10,14 +10,14 @@ ASSUMPTIONS = C.ASSUMPTIONS
 BOUNDS = {
     "quick": "CNF structural: every set of <=3 distinct-variable clauses over 3 variables (2951 formulas, canonical order), every set "
              "of <=2 such clauses x 3 assumption lists, VERIF_SEED-sampled: 300 3-clause sets x assumptions, 300 'dirty' CNFs "
-             "(duplicate literals, tautologies, unsorted, 2-5 clauses), 120 threshold 3-SAT-ish CNFs on 4-6 variables (8-26 clauses), "
+             "(duplicate literals, tautologies, unsorted, 2-5 clauses), 80 threshold CNFs on 5-7 variables (half satisfiable, budgets unbounded and capped at 24), 48 planted-model 3-SAT at ratio 4.2 on 6-8 variables, "
              "pigeonhole PHP(3,2) PHP(4,3) PHP(3,3) PHP(4,4) and the 18-variable cumulative CNF, and a reduce_db pass with the "
              "threshold lowered to 2; solution_limit>=1, luby_factor>=1, max_conflicts>=0, max_restarts>=0 are UNBOUNDED symbolic Ints",
     "thorough": "quick with 10x the seeded samples, plus every set of 4 clean clauses over 3 variables (14950 formulas), PHP(5,4)",
 }
 OUTSIDE = "formulas outside the enumerated/sampled/named sets (structure is enumerated, not symbolic); assumptions on variables that do not occur in the formula"
 GOALS = {"quick": ["conflict_learned", "blocking_clause", "two_conflicts"], "thorough": ["conflict_learned", "blocking_clause", "two_conflicts"]}
-OPTS = {"quick": {"path_wall": 4.0}, "thorough": {"path_wall": 6.0}}
+OPTS = {"quick": {"path_wall": 10.0}, "thorough": {"path_wall": 12.0}}
 
 
 def items(tier, rng):
